@@ -52,6 +52,8 @@ def _explore(db, ref, TR):
 
 
 def run(db, chk) -> None:
+    from ..specs.discipline import check_shared_trace_untouched
+    check_shared_trace_untouched(db, chk, "C14.R-shared-trace")
     from ..specs.discipline import check_facade_stateless
     check_facade_stateless(db, chk, "C14.R-facade-stateless", ['get_queue_length_time_series', 'get_memory_bw_time_series', 'generate_trace_with_counters', 'get_queue_length_summary', 'get_memory_bw_summary'])
     from ..specs.discipline import check_stateless
